@@ -30,7 +30,6 @@ func reachingStore(fn *ssa.Function, ld *ssa.UnOp) *ssa.Store {
 			}
 		}
 	}
-	isLd := func(x ssa.Instruction) bool { return x == ssa.Instruction(ld) }
 	for _, st := range cands {
 		writer := func(x ssa.Instruction) bool {
 			if x == ssa.Instruction(st) {
@@ -51,12 +50,8 @@ func reachingStore(fn *ssa.Function, ld *ssa.UnOp) *ssa.Store {
 			}
 			return false
 		}
-		found, hit, _ := PathQuery{Start: st, Target: writer, Barrier: isLd}.Find(fn)
-		if found {
-			again, _, _ := PathQuery{Start: hit, Target: isLd}.Find(fn)
-			if again {
-				continue
-			}
+		if interveningWriter(fn, st, ld, writer, nil) {
+			continue
 		}
 		return st
 	}
